@@ -177,7 +177,7 @@ class Folder:
             params = set(func_params(self.fn))
             for s_ in t.parts:
                 seen = 0
-                while isinstance(s_, Slot) and s_.sub is None and isinstance(s_.val, ast.Name) and s_.val.id not in params and seen < 4:
+                while isinstance(s_, Slot) and isinstance(s_.val, ast.Name) and s_.val.id not in params and seen < 4:
                     v = value_def(self.fn, s_.val.id)
                     if v is None:
                         break
